@@ -544,15 +544,47 @@ fn acceptance(rep: &Report, n: usize) -> (Census, u64, u64) {
             trans += te.attempted;
             let mut all: Vec<T> = te.all().map(|m| walk(m).relabel_distinct()).collect();
             all.extend(arity_family($tap));
+            // the multisig kinds of the OTHER script family (multi / sortedmulti in tapscript, multi_a /
+            // sortedmulti_a outside): bare, below a wrapper, next to a sibling
+            all.extend(arity_family(!$tap).into_iter().filter(|t| t.keys().len() <= 3));
             let c = all
                 .par_iter()
                 .fold(Census::new, |mut cen, t| {
                     let legal = legal_in_context(t, $name);
                     let ms = match build::<String, $ctx>(t, &StrEnv) {
                         Ok(m) => m,
-                        Err(_) => return cen,
+                        Err(_) => {
+                            // the constructor refuses: the parsers of the context must not be more generous
+                            bump(&mut cen, "constructor_refused");
+                            let txt = t.print();
+                            for (entry, ok) in [
+                                ("Miniscript::from_str_insane", guard(|| Miniscript::<String, $ctx>::from_str_insane(&txt).is_ok()).unwrap_or(false)),
+                                ("Miniscript::from_str_with_validation_params(MAX)", guard(|| Miniscript::<String, $ctx>::from_str_with_validation_params(&txt, &miniscript::ValidationParams::MAX).is_ok()).unwrap_or(false)),
+                            ] {
+                                if ok && legal.is_err() {
+                                    rep.violation(Violation {
+                                        key: format!("C12|accept|{}|{}|{}", entry, $name, t.sexpr()),
+                                        class: format!("parser-accepts-what-from_ast-refuses-{}", entry),
+                                        what: format!("{} accepts '{}' in context {} although from_ast refuses it and: {}", entry, txt, $name, legal.err().unwrap_or("")),
+                                        case: json!({"ctx": $name, "entry": entry, "model": t.sexpr(), "string": txt}),
+                                    });
+                                }
+                            }
+                            return cen;
+                        }
                     };
                     let mk: &dyn Fn(&T, Miniscript<String, $ctx>) -> Vec<(&'static str, bool, String)> = &$mk;
+                    // being here means from_ast itself accepted the term: fragments of any base type are
+                    // its business, the multisig kind of the other script family is not
+                    let tapctx = $name == "tap";
+                    if (tapctx && any_node(t, &|n| matches!(n, T::Multi(..) | T::SortedMulti(..)))) || (!tapctx && any_node(t, &|n| matches!(n, T::MultiA(..) | T::SortedMultiA(..)))) {
+                        rep.violation(Violation {
+                            key: format!("C12|accept|Miniscript::from_ast|{}|{}", $name, t.sexpr()),
+                            class: format!("accepts-illegal-Miniscript::from_ast-{}", if tapctx { "multi-in-tapscript" } else { "multi_a-outside-tapscript" }),
+                            what: format!("Miniscript::from_ast accepts '{}' in context {}", t.print(), $name),
+                            case: json!({"ctx": $name, "entry": "Miniscript::from_ast", "model": t.sexpr()}),
+                        });
+                    }
                     for (entry, accepted, shown) in mk(t, ms) {
                         bump(&mut cen, "acceptance_evaluations");
                         if accepted {
